@@ -34,6 +34,7 @@ package momentum
 //@ guarantees[C06] "input-close" len(arg(Rsi_Compute, 0, 0)) == len(snapshots) && (forall k :: 0 <= k && k < len(snapshots) ==> arg(Rsi_Compute, 0, 0)[k] == snapshots[k].Close)
 //@ guarantees[C06] "below-buy-threshold-buys" forall k :: 0 <= k && k < len(res(Rsi_Compute, 0)) ==> (r.BuyAt < r.SellAt && res(Rsi_Compute, 0)[k] < r.BuyAt ==> result[k + r.Rsi.IdlePeriod()] == 1)
 //@ guarantees[C06] "above-sell-threshold-sells" forall k :: 0 <= k && k < len(res(Rsi_Compute, 0)) ==> (r.BuyAt < r.SellAt && res(Rsi_Compute, 0)[k] > r.SellAt ==> result[k + r.Rsi.IdlePeriod()] == 0 - 1)
+//@ guarantees[C06] "between-the-thresholds-holds" forall k :: 0 <= k && k < len(res(Rsi_Compute, 0)) ==> (res(Rsi_Compute, 0)[k] > r.BuyAt && res(Rsi_Compute, 0)[k] < r.SellAt ==> result[k + r.Rsi.IdlePeriod()] == 0)
 //@ ensures[C05] "len" len(snapshots) >= (r.Rsi.IdlePeriod()) ==> len(result) == len(snapshots)
 //@ ensures[C05] "len-short" len(result) >= len(snapshots)
 //@ ensures[C05] "warmup-hold" forall kk :: 0 <= kk && kk < min((r.Rsi.IdlePeriod()), len(result)) ==> result[kk] == 0
@@ -53,8 +54,11 @@ package momentum
 //@ func StochasticRsiStrategy.Compute
 //@ requires s.StochasticRsi.Rsi.Rma.Period >= 1 && s.StochasticRsi.Min.Period >= 1 && s.StochasticRsi.Max.Period == s.StochasticRsi.Min.Period && consumed(snapshots) == 0
 //@ guarantees[C06] "input-close" len(arg(StochasticRsi_Compute, 0, 0)) == len(snapshots) && (forall k :: 0 <= k && k < len(snapshots) ==> arg(StochasticRsi_Compute, 0, 0)[k] == snapshots[k].Close)
-//@ guarantees[C06] "below-buy-threshold-buys" forall k :: 0 <= k && k < len(res(StochasticRsi_Compute, 0)) ==> (s.BuyAt < s.SellAt && res(StochasticRsi_Compute, 0)[k] < s.BuyAt ==> result[k + s.StochasticRsi.IdlePeriod()] == 1)
-//@ guarantees[C06] "above-sell-threshold-sells" forall k :: 0 <= k && k < len(res(StochasticRsi_Compute, 0)) ==> (s.BuyAt < s.SellAt && res(StochasticRsi_Compute, 0)[k] > s.SellAt ==> result[k + s.StochasticRsi.IdlePeriod()] == 0 - 1)
+// the rule is stated for every order of the two levels (the defaults are BuyAt 0.8, SellAt 0.2): at or below BuyAt buys;
+// otherwise at or above SellAt sells; otherwise (only possible when BuyAt < SellAt) holds
+//@ guarantees[C06] "below-buy-threshold-buys" forall k :: 0 <= k && k < len(res(StochasticRsi_Compute, 0)) ==> (res(StochasticRsi_Compute, 0)[k] < s.BuyAt ==> result[k + s.StochasticRsi.IdlePeriod()] == 1)
+//@ guarantees[C06] "above-both-thresholds-sells" forall k :: 0 <= k && k < len(res(StochasticRsi_Compute, 0)) ==> (res(StochasticRsi_Compute, 0)[k] > s.BuyAt && res(StochasticRsi_Compute, 0)[k] > s.SellAt ==> result[k + s.StochasticRsi.IdlePeriod()] == 0 - 1)
+//@ guarantees[C06] "between-the-thresholds-holds" forall k :: 0 <= k && k < len(res(StochasticRsi_Compute, 0)) ==> (res(StochasticRsi_Compute, 0)[k] > s.BuyAt && res(StochasticRsi_Compute, 0)[k] < s.SellAt ==> result[k + s.StochasticRsi.IdlePeriod()] == 0)
 //@ ensures[C05] "len" len(snapshots) >= (s.StochasticRsi.IdlePeriod()) ==> len(result) == len(snapshots)
 //@ ensures[C05] "len-short" len(result) >= len(snapshots)
 //@ ensures[C05] "warmup-hold" forall kk :: 0 <= kk && kk < min((s.StochasticRsi.IdlePeriod()), len(result)) ==> result[kk] == 0
